@@ -40,17 +40,23 @@ Definition ref_proj (ps : rmask) (v : value) : value := project_mask (Some ps) v
 
 Definition clock (n : Z) : Z := n.
 
-(* ---- the one server that is not a plain register: openclosepb.ModelServer keeps a COLLECTION of
+(* ---- the one server that was not a plain register: openclosepb.ModelServer keeps a COLLECTION of
    positions (one per direction) and assembles OpenClosePositions from it.  Two places of that
-   assembly deviate from the register (both recorded as findings, see Props/C14.v):
+   assembly deviated from the register until /repo commits 406d0ba and cb6a657 (variant VOpenClose,
+   kept as the v0 of this server; every server is VPlain now, see Props/C14.v):
      - GetPositions hands the request's read mask to Collection.List, which applies it to every
        OpenClosePosition element instead of to the OpenClosePositions message;
      - PullPositions only starts sending once it has seen the last seed item of the collection:
        opened on an empty collection it never sends anything, neither a first value nor updates. ---- *)
 Inductive variant := VPlain | VOpenClose.
 
-Definition variant_of (server : string) : variant :=
-  if String.eqb server "openclosepb.ModelServer/OpenCloseApi.Positions" then VOpenClose else VPlain.
+Definition oc_server : string := "openclosepb.ModelServer/OpenCloseApi.Positions".
+
+(* the code as it is: every discovered server is a plain register *)
+Definition variant_of (server : string) : variant := VPlain.
+(* before 406d0ba / cb6a657 *)
+Definition variant_of_v0 (server : string) : variant :=
+  if String.eqb server oc_server then VOpenClose else VPlain.
 
 Definition oc_states (v : value) : list value :=
   match v with
@@ -118,16 +124,18 @@ Fixpoint all2 {A B} (f : A -> B -> bool) (a : list A) (b : list B) : bool :=
 
 Definition info_of (server : string) : option srvinfo := alookup server servers_table.
 
-Definition agrees (c : c14case) : bool :=
+Definition agrees_gen (vof : string -> variant) (c : c14case) : bool :=
   match c with
   | KTrace server init evs streams =>
       match info_of server with
       | None => false
       | Some info =>
-          let '(s, resps) := model_run (variant_of server) info init evs in
+          let '(s, resps) := model_run (vof server) info init evs in
           all2 resp_matches resps evs && list_eqb (sobs_eqb value_eqb) (outputs (model_filter (sv_type info)) (equiv_of (sv_eq info)) s) streams
       end
   end.
+Definition agrees := agrees_gen variant_of.
+Definition agrees_v0 := agrees_gen variant_of_v0.
 
 Definition C14_ok (c : c14case) : bool :=
   match c with
@@ -147,24 +155,6 @@ Definition C14_guard (c : c14case) : bool :=
       forallb (fun e => match e with TGet _ k _ => mask_ok k | TOpen _ k _ => mask_ok k | _ => true end) evs
   end.
 
-(* known-finding classes: only histories against the one composite server, and only when the model
-   WITH the two deviations reproduces the observation exactly *)
-Fixpoint opened_on_empty (cur : option value) (evs : list (tev value rmask)) : bool :=
-  match evs with
-  | [] => false
-  | TOpen name _ _ :: r => (existsb (String.eqb name) dev_names && negb (oc_live cur)) || opened_on_empty cur r
-  | TUpdate name (inl v) :: r => opened_on_empty (if existsb (String.eqb name) dev_names then Some v else cur) r
-  | _ :: r => opened_on_empty cur r
-  end.
-
-Definition known_class (c : c14case) : option Z :=
-  match c with
-  | KTrace server init evs _ =>
-      match variant_of server with
-      | VPlain => None
-      | VOpenClose => Some (if opened_on_empty (Some init) evs then 2 else 1)
-      end
-  end.
-
+(* no known-finding class is left: the two openclose deviations are repaired *)
 Definition judge (c : c14case) : Z :=
-  verdict (agrees c) (if C14_guard c then C14_ok c else true) (known_class c).
+  verdict (agrees c) (if C14_guard c then C14_ok c else true) None.
